@@ -282,42 +282,20 @@ def run_check(prop, harness_name, tier, seed, replay_path=None, selftest=False, 
                                 "decisions": p["decisions"], "witness": p["witness"],
                                 "obligations": [(o["name"], o["status"], o["how"]) for o in p["obligs"]][:12]})
 
-    ctx = mp.get_context("spawn")
-    from symx import worker
+    from symx import pool as _pool
     deadline = t_start + wall_budget
-    pending_jobs = list(jobs)
-    with ProcessPoolExecutor(max_workers=nproc, mp_context=ctx) as ex:
-        futs = {}
-        # submit gradually so that the wall budget can cut the tail
-        it = iter(pending_jobs)
-        active = set()
+    # heavy jobs first is not known in advance; keep the given order
+    hard = getattr(H, "JOB_HARD_LIMIT", None)
 
-        def submit_more():
-            while len(active) < nproc * 2:
-                if time.time() > deadline:
-                    return
-                try:
-                    j = next(it)
-                except StopIteration:
-                    return
-                f = ex.submit(worker.explore_job, j)
-                active.add(f)
-        submit_more()
-        while active:
-            done = [f for f in list(active) if f.done()]
-            if not done:
-                time.sleep(0.05)
-                continue
-            for f in done:
-                active.discard(f)
-                try:
-                    handle(f.result())
-                except Exception as e:
-                    import traceback
-                    harness_errors.append({"error": "driver: %r" % e, "traceback": traceback.format_exc()[-1500:]})
-            submit_more()
-        skipped = sum(1 for _ in it)
-        agg["jobs_skipped_budget"] = skipped
+    def hard_limit(job):
+        if hard:
+            return hard
+        return 3.0 * (job.get("budget_s") or getattr(H, "JOB_BUDGET", 120)) + 60.0
+    pl = _pool.Pool(nproc, hard_limit)
+    killed = pl.run(jobs, handle, deadline, harness_errors)
+    agg["jobs_skipped_budget"] = killed["not_started"]
+    agg["jobs_killed_solver_hang"] = killed["killed"]
+    agg["unexplored"] += killed["killed"]
 
     rep_jit.close()
     rep_py.close()
@@ -361,11 +339,11 @@ def run_check(prop, harness_name, tier, seed, replay_path=None, selftest=False, 
     ev = {
         "property_id": prop, "tier": tier, "seed": int(seed), "level": "model_checking",
         "coverage": {
-            "states": max(agg["paths"], 0), "transitions": agg["decisions"],
+            "states": max(agg["paths"], 0), "transitions": agg["decisions"] + agg["paths"],
             "traces_validated_against_impl": agg["validated"],
             "samples": samples or [{"note": "no completed path"}],
             "explanation": "states = feasible paths of the real functions explored symbolically (each decided by z3 for ALL "
-                           "values of the symbolic parameters satisfying its path condition); transitions = branch decisions; "
+                           "values of the symbolic parameters satisfying its path condition); transitions = branch decisions decided by the solver plus one terminal (obligation) step per path; "
                            "traces_validated = path witnesses whose symbolic outputs matched the compiled (numba) code.",
             "obligations": agg["obligations"], "discharged": agg["discharged"], "undecided": agg["undecided"],
             "refuted_model_only": agg["model_only"], "refuted_and_replayed": agg["refuted_replayed"],
@@ -373,6 +351,7 @@ def run_check(prop, harness_name, tier, seed, replay_path=None, selftest=False, 
             "paths_aborted": agg["aborted"], "paths_inconclusive_branch": agg["inconclusive_paths"],
             "pending_paths_unexplored": agg["unexplored"], "jobs": agg["jobs"], "jobs_failed": agg["jobs_failed"],
             "jobs_not_started_wall_budget": agg["jobs_skipped_budget"],
+            "jobs_killed_solver_ignored_timeout": agg.get("jobs_killed_solver_hang", 0),
             "witness_mismatch": agg["witness_mismatch"], "witness_not_available": agg["witness_skipped"],
             "witness_mismatch_samples": mismatches[:5],
             "solver_queries": agg["queries"], "solver_s": round(agg["solver_s"], 2), "solver_unknown": agg["unknown"],
